@@ -32,10 +32,15 @@ type stacking struct {
 	pp, tls   bool
 	mitm      bool
 	idleOnly  bool // idle-timeout is the only configured limit (read-header-timeout 0)
+	longIdle  bool // idle-timeout 30 s and no read-header-timeout: only the PROXY header limit is short
 	cli, ctrl *lib.CLI
 }
 
 var ppHeader = []byte("PROXY TCP4 198.51.100.7 127.0.0.1 40000 3128\r\n")
+
+// the same announcement as a version 2 (binary) header: 12 signature bytes, version/command,
+// family/protocol, length, then 12 address bytes and one 7-byte NOOP TLV
+var ppHeaderV2 = append([]byte("\r\n\r\n\x00\r\nQUIT\n\x21\x11\x00\x13"), []byte{198, 51, 100, 7, 127, 0, 0, 1, 0x9c, 0x40, 0x0c, 0x38, 0x04, 0x00, 0x04, 0, 0, 0, 0}...)
 
 func clientHello(serverName string) []byte {
 	a, b := net.Pipe()
@@ -89,6 +94,8 @@ func perform(s *stacking, steps []step, hello []byte) (*session, time.Time, time
 			se.conn.Write(ppHeader)
 		case "pp-part":
 			se.conn.Write(ppHeader[:sp.k])
+		case "pp2-part":
+			se.conn.Write(ppHeaderV2[:sp.k])
 		case "tls-part", "inner-tls-part":
 			k := sp.k
 			if k > len(hello) {
@@ -155,6 +162,9 @@ func startStacking(run *lib.Run, s *stacking, origin *lib.Origin, ca *lib.CA) er
 	if s.idleOnly {
 		args[9] = "0s"
 	}
+	if s.longIdle {
+		args[7], args[9] = "30s", "0s"
+	}
 	if s.pp {
 		args = append(args, "--proxy-protocol-listener", "--proxy-protocol-read-header-timeout", "2500ms")
 	}
@@ -193,11 +203,20 @@ func main() {
 			return
 		}
 	}
+	// a PROXY-protocol listener whose other limits are far away: a connection that is still in its
+	// header can only be ended by the header limit (this stacking takes part in the header cases only)
+	ppLong := &stacking{name: "pp-long-idle", pp: true, longIdle: true}
+	if err := startStacking(run, ppLong, origin, ca); err != nil {
+		run.Inconclusive("start " + ppLong.name + ": " + err.Error())
+		run.Finish()
+		return
+	}
 	hello := clientHello("origin.test")
 	var cases []scase
 	headKs := []int{1, 10, strings.Index(reqHead, "\r\n") + 2, strings.Index(reqHead, "X-Stall") + 4, len(reqHead) - 1}
 	ppKs := []int{1, 5, 6, 12, 20, len(ppHeader) - 1}
 	helloKs := []int{1, 5, 6, 50, len(hello) - 1}
+	pp2Ks := []int{5, 13, 16, 17, 22, len(ppHeaderV2) - 1}
 	if !run.Quick() {
 		for k := 2; k < len(reqHead)-1; k += 3 {
 			headKs = append(headKs, k)
@@ -205,9 +224,19 @@ func main() {
 		for k := 2; k < len(ppHeader)-1; k += 2 {
 			ppKs = append(ppKs, k)
 		}
+		for k := 1; k < len(ppHeaderV2)-1; k++ {
+			pp2Ks = append(pp2Ks, k)
+		}
 		for k := 7; k < len(hello)-1; k += 23 {
 			helloKs = append(helloKs, k)
 		}
+	}
+	cases = append(cases, scase{name: "nothing-sent", st: ppLong, limits: []time.Duration{ppT}, from: "connect"})
+	for _, k := range ppKs {
+		cases = append(cases, scase{name: fmt.Sprintf("pp-header-after-%d", k), st: ppLong, steps: []step{{"pp-part", k}}, limits: []time.Duration{ppT}, from: "connect"})
+	}
+	for _, k := range pp2Ks {
+		cases = append(cases, scase{name: fmt.Sprintf("pp-v2-header-after-%d", k), st: ppLong, steps: []step{{"pp2-part", k}}, limits: []time.Duration{ppT}, from: "connect"})
 	}
 	for _, s := range stackings {
 		var pre []step // steps to get past the listener layers
@@ -232,6 +261,9 @@ func main() {
 		if s.pp {
 			for _, k := range ppKs {
 				cases = append(cases, scase{name: fmt.Sprintf("pp-header-after-%d", k), st: s, steps: []step{{"pp-part", k}}, limits: first, from: "connect"})
+			}
+			for _, k := range pp2Ks {
+				cases = append(cases, scase{name: fmt.Sprintf("pp-v2-header-after-%d", k), st: s, steps: []step{{"pp2-part", k}}, limits: first, from: "connect"})
 			}
 		}
 		if s.tls {
@@ -286,11 +318,12 @@ func main() {
 		}(i, c)
 	}
 	wg.Wait()
+	splitHeaders(run, hb, ppLong, len(cases)+300)
 	lateHeads(run, hb, stackings, hello, len(cases)+50)
 	slowOrigin(run, hb, stackings, hello, len(cases))
 	progressing(run, hb, stackings, hello, len(cases)+200)
 	nonInterference(run, hb, stackings, hello, len(cases)+100)
-	for _, s := range stackings {
+	for _, s := range append([]*stacking{ppLong}, stackings...) {
 		for _, c := range []*lib.CLI{s.cli, s.ctrl} {
 			if !c.Alive() {
 				run.Violation("process-died:"+s.name, "child exited: "+lib.Trunc(c.Output(), 1500), -1, nil)
@@ -304,6 +337,52 @@ func main() {
 	run.Floor("noninterference_probes", 6)
 	run.Floor("progressing_connections_served", 8)
 	run.Finish()
+}
+
+// splitHeaders: a client that keeps making progress delivers its PROXY header (either version)
+// in two segments with a pause well inside the header limit; the request behind it is served.
+func splitHeaders(run *lib.Run, hb *lib.Heartbeat, s *stacking, base int) {
+	type sh struct {
+		name string
+		hdr  []byte
+		k    int
+	}
+	var list []sh
+	for _, k := range []int{1, 6, 20, len(ppHeader) - 2} {
+		list = append(list, sh{"v1", ppHeader, k})
+	}
+	for k := 1; k < len(ppHeaderV2); k += 3 {
+		list = append(list, sh{"v2", ppHeaderV2, k})
+	}
+	for i, c := range list {
+		idx := base + i
+		if !run.Want(idx) {
+			continue
+		}
+		run.Case(idx, fmt.Sprintf("%s|pp-%s-header-split", s.name, c.name), nil)
+		t0 := time.Now()
+		conn, err := net.DialTimeout("tcp", s.cli.ProxyAddr, 5*time.Second)
+		if err != nil {
+			run.Inconclusive("split header set-up: " + err.Error())
+			continue
+		}
+		conn.Write(c.hdr[:c.k])
+		time.Sleep(120 * time.Millisecond)
+		conn.Write(c.hdr[c.k:])
+		time.Sleep(20 * time.Millisecond)
+		conn.Write([]byte(reqHead))
+		st := lib.NewStream(conn)
+		m, pst, _ := st.ReadResponse("GET", 8*time.Second)
+		if pst == lib.POK && m.Status == 200 {
+			run.Count("split_headers_served", 1)
+		} else if hb.Healthy(t0) {
+			run.Violation("progressing-connection-cut:pp-header-split:"+c.name, fmt.Sprintf("[%s] PROXY %s header sent as %d bytes, 120 ms pause, remaining %d bytes (header limit %v), then a request: answered %v", s.name, c.name, c.k, len(c.hdr)-c.k, ppT, m), idx, nil)
+		} else {
+			run.Inconclusive("split header, unhealthy heartbeat")
+		}
+		conn.Close()
+	}
+	run.Floor("split_headers_served", 8)
 }
 
 func minMax(ds []time.Duration) (lo, hi time.Duration) {
